@@ -64,6 +64,18 @@ def _regime_classes(tm: TempoModel):
     return out
 
 
+def _shadow_events(case):
+    """BPMEvents of a second chart (every tempo a little faster, one more tempo event) kept alive and
+    queried in lock-step with the chart under test: charts must not share lookup state."""
+    tempo = [[t, n + 1 + n // 3] for t, n in case["tempo"]]
+    tempo.append([tempo[-1][0] + 7, 123456])
+    spec = {"res": case["res"], "sync": [[0, "TS", 4]] + [[t, "B", n] for t, n in tempo], "events": [], "tracks": {}}
+    try:
+        return L.parse(S.render(spec)).sync_track.bpm_events
+    except Exception:  # noqa: BLE001
+        return None
+
+
 def check_maps(ctx: Ctx, case) -> None:
     tm = TempoModel(case["res"], case["tempo"])
     spec = {"res": case["res"], "sync": [[0, "TS", 4]] + [[t, "B", n] for t, n in case["tempo"]],
@@ -76,7 +88,16 @@ def check_maps(ctx: Ctx, case) -> None:
     strict = tm.strict_regime()
     prev_t = prev_us = None
     segs = set()
-    for t in case["ticks"]:
+    shadow = _shadow_events(case)
+    for qi, t in enumerate(case["ticks"]):
+        if shadow is not None and qi % 3 != 0:
+            # another chart with another tempo map is alive and answers the same tick just before
+            # (not for every tick: a consistently wrong timeline would still be monotone)
+            try:
+                shadow.timestamp_at_tick(t)
+                shadow.timestamp_at_tick_no_optimize_return(t)
+            except Exception:  # noqa: BLE001  (the shadow is not under test)
+                pass
         try:
             a = td_us(bpm.timestamp_at_tick_no_optimize_return(t))
             b = td_us(bpm.timestamp_at_tick(t)[0])
